@@ -6,7 +6,7 @@ CONSTANTS
   ShippedUpdate = FALSE
   Protocol = "sentinel"
   AsyncFeeder = TRUE
-  Rootings <- RootingsUnrooted
+  Rootings <- RootingsAll
 INVARIANT NoMergeFailure
 INVARIANT SameSummary
 INVARIANT EveryFileRead
